@@ -6,6 +6,7 @@ import Rare.Proofs.F64Parse
 import Rare.Proofs.C13Date
 import Rare.Proofs.C13Groups
 import Rare.Proofs.C13Axes
+import Rare.Proofs.C13Survey
 import Rare.Gen.C13
 /-!
 # C13 – Output ordering is a deterministic function of the aggregated data
@@ -54,6 +55,8 @@ first key they see and switch to the fallback for good when they meet a stranger
 `less a b` depends on the comparisons made before.  Proved instead: `contextual_partial`,
 `date_partial` (hypothesis: all keys infer the same table / share one layout, or none does) and
 `contextual_counterexample`, `date_counterexample`, `date_layout_counterexample` at the witnesses.
+Round 4c: the one repair the repo's tests leave room for (an in-band "survey" of the keys before sorting) was examined on the
+real code and on the model and rejected: `survey_harmless`, `survey_repair_counterexample`.
 -/
 namespace Rare.C13
 
@@ -208,6 +211,63 @@ theorem date_layout_counterexample :
           [asc "2022-9-3", asc "2022-10-01", asc "2022-09-02"]).1
         = [asc "2022-09-02", asc "2022-10-01", asc "2022-9-3"] := by
   decide +kernel
+
+/-! ## a repair of F19 that was examined and rejected (round 4c): the "survey" step
+
+The repo's tests pin the sorters as plain funcs handed through the generic `Sort[TElem, TSort ~func(a, b TElem) bool]`
+(`TestFallbackSort`: `Sort(list, ByContextual())` must give the SET-level fallback), so the only way `Sort`/`SortBy` can tell
+a closure about the key set is to call it.  `survey` = show every element to the sorter as `less(x, x)` before `sort.Sort`
+(`Proofs/C13Survey.lean`; tried on the real code in a scratch worktree: the whole suite passes unedited).  It is harmless
+(`survey_harmless`) and repairs witnesses 1 and 2, but it is not a repair of F19 (`survey_repair_counterexample`). -/
+
+/-- Wherever the closure already answers a pure order (the uniform key sets of `contextual_partial` / `date_partial`, every
+key set of the other modes), it still does after having been shown any of these keys: a survey changes nothing there. -/
+theorem survey_harmless {α σ : Type} {cmp : SCmp α σ} {init : σ} {P : α → Prop} {less : α → α → Bool}
+    (h : Faithful cmp init P less) (arrival : List α) (hl : ∀ x ∈ arrival, P x) {ρ : Type} (alg : Algo α ρ)
+    (hw : Algo.Within P alg) :
+    (Algo.run cmp (survey cmp init arrival) alg).1 = Algo.runPure less alg :=
+  (h.after_survey arrival hl).run_eq alg hw
+
+/-- What the survey repairs and what it does not (kernel computation on the model of the patched `Sort`):
+* `{mon, fri, abc}` (witness 1) and `{01/02/2022, 12/31/2021, abc}` (witness 2): both arrival orders of
+  `contextual_counterexample` / `date_counterexample` now give the set-level fallback order;
+* `{2022-10-01, 2022-9-3, 2022-09-02}` (witness 3): the layout is still the one of the first key shown – the two arrival
+  orders of `date_layout_counterexample` still give two sequences;
+* `date` = `ByDate(ByContextual())`: `ByDate` hands a key to its inner closure only once it has fallen back (and must not
+  before: `TestDateSort` passes a fallback that panics), so after ONE survey of `{2022-01-01, mon, fri}` the inner closure
+  has seen `mon, fri` (arrival `2022-01-01` first: weekday table, `mon < fri`) or all three (arrival `mon` first: fallback,
+  `fri < mon`) – the answer to `mon < fri` depends on the arrival order; a SECOND survey would settle it.  With Go's
+  insertion sort the first comparison happens to involve the unseen key, so this shows only for `n > 12` (real code, 17
+  keys: 93 different results in 2000 shuffles). -/
+theorem survey_repair_counterexample :
+    (surveyedSort (byContextual witnessOracle sortSets) ({}, ()) [asc "mon", asc "fri", asc "abc"]
+        = [asc "abc", asc "fri", asc "mon"]
+      ∧ surveyedSort (byContextual witnessOracle sortSets) ({}, ()) [asc "abc", asc "mon", asc "fri"]
+        = [asc "abc", asc "fri", asc "mon"]
+      ∧ surveyedSort (byDateWithContextual witnessOracle sortSets) ({}, {}, ())
+          [asc "01/02/2022", asc "12/31/2021", asc "abc"] = [asc "01/02/2022", asc "12/31/2021", asc "abc"]
+      ∧ surveyedSort (byDateWithContextual witnessOracle sortSets) ({}, {}, ())
+          [asc "abc", asc "01/02/2022", asc "12/31/2021"] = [asc "01/02/2022", asc "12/31/2021", asc "abc"])
+    ∧ (surveyedSort (byDateWithContextual layoutWitness sortSets) ({}, {}, ())
+          [asc "2022-10-01", asc "2022-9-3", asc "2022-09-02"] = [asc "2022-09-02", asc "2022-10-01", asc "2022-9-3"]
+      ∧ surveyedSort (byDateWithContextual layoutWitness sortSets) ({}, {}, ())
+          [asc "2022-9-3", asc "2022-10-01", asc "2022-09-02"] = [asc "2022-09-02", asc "2022-9-3", asc "2022-10-01"])
+    ∧ ((byDateWithContextual nestedWitness sortSets
+          (survey (byDateWithContextual nestedWitness sortSets) ({}, {}, ()) [asc "2022-01-01", asc "mon", asc "fri"])
+          (asc "mon") (asc "fri")).1 = true
+      ∧ (byDateWithContextual nestedWitness sortSets
+          (survey (byDateWithContextual nestedWitness sortSets) ({}, {}, ()) [asc "mon", asc "2022-01-01", asc "fri"])
+          (asc "mon") (asc "fri")).1 = false
+      ∧ (byDateWithContextual nestedWitness sortSets
+          (survey (byDateWithContextual nestedWitness sortSets) ({}, {}, ())
+            ([asc "2022-01-01", asc "mon", asc "fri"] ++ [asc "2022-01-01", asc "mon", asc "fri"]))
+          (asc "mon") (asc "fri")).1 = false) := by
+  refine ⟨by decide +kernel, by decide +kernel, by decide +kernel⟩
+
+/-- the hypothesis of `survey_harmless` is satisfiable on a non-trivial closure: weekday names in three spellings -/
+example : (Algo.run (byContextual witnessOracle sortSets)
+      (survey (byContextual witnessOracle sortSets) ({}, ()) [asc "Mon", asc "tues", asc "sunday"])
+      (isortA [asc "tues", asc "sunday", asc "Mon"])).1 = [asc "sunday", asc "Mon", asc "tues"] := by decide +kernel
 
 /-! ## what each mode means -/
 
